@@ -895,6 +895,12 @@ pub fn main(args: &util::Args) {
         let files = if rp.is_some() { vec![("main.gom".to_string(), src.clone())] } else { split_project(src) };
         run_case(id, &files, &dir, rp.as_deref(), &mut out, "stream=corpus");
     }
+    // the name catalogue (harness/src/namecat.rs): a local binder spelled like a package-level name in every
+    // binder kind x use position (bare, callee, callee under an operator, passed on, captured, …); well-typed
+    // by construction when every use means its innermost binder
+    for case in crate::namecat::catalogue(args.seed, args.tier == "thorough") {
+        run_case(&case.id, &case.files, &dir, None, &mut out, &format!("stream=names strays=0 globals_clash=false site={:?}File dups=false", case.site));
+    }
     let total = args.n.unwrap_or(if args.tier == "thorough" { 9000 } else { 900 });
     let mut feats_total: HashMap<&'static str, usize> = HashMap::new();
     for i in 0..total {
